@@ -526,7 +526,7 @@ func TestPoolStateMachine(t *testing.T) {
 			executed: map[common.Hash]common.Hash{}, returned: map[common.Hash]bool{}}
 		defer func() { _ = safely(func() { drainPool(pool) }) }()
 		if n := pool.TxNum(); n != 0 {
-			t.Fatalf("VERIF-INCONCLUSIVE pool not empty at case start (%d)", n)
+			t.Fatalf("%d transactions are pending at case start although every key of the pending container was removed after the previous case: the container is corrupted", n)
 		}
 		for i := range m.cur {
 			m.cur[i] = uint64(rapid.IntRange(0, 4).Draw(t, "baseNonce"))
@@ -881,7 +881,7 @@ func (tr *tree) describe() string {
 
 func TestReorgHistories(t *testing.T) {
 	dropNode()
-	stats.Check(t, 30, 80, func(t *rapid.T) {
+	stats.Check(t, 24, 80, func(t *rapid.T) {
 		tr := buildTree(t)
 		if len(tr.blocks) < 2 {
 			t.Skip("tree too small")
@@ -993,11 +993,11 @@ func TestConcurrentMixes(t *testing.T) {
 	needNode(t)
 	defer keepFailFiles(t)
 	pool := boot.Pool()
-	stats.Check(t, 200, 1000, func(t *rapid.T) {
+	stats.Check(t, 400, 1500, func(t *rapid.T) {
 		salt := atomic.AddUint64(&caseSeq, 1)
 		defer func() { _ = safely(func() { drainPool(pool) }) }()
 		if n := pool.TxNum(); n != 0 {
-			t.Fatalf("VERIF-INCONCLUSIVE pool not empty at case start (%d)", n)
+			t.Fatalf("%d transactions are pending at case start although every key of the pending container was removed after the previous case: the container is corrupted", n)
 		}
 		var base [4]uint64
 		for i := range base {
@@ -1416,8 +1416,21 @@ func TestProbeAddVsMark(t *testing.T) {
 	hdr := &types.BlockHeader{Height: 900, Hash: blockHash(salt, 0), EvictedTxs: []common.Hash{}}
 	r := types.NewReceipt(nil, false, 0, hdr.Height, "", tx.Source, "")
 	r.TxHash = tx.Hash
+	// The block bookkeeping runs on its own goroutine (as in the node) while the submitting
+	// goroutine is parked between its check and its insertion. If a repaired pool makes the
+	// two mutually exclusive, MarkExecuted simply waits: the park ends after a grace period,
+	// the submission completes first, and the probe reports the defect as absent.
+	marked := make(chan interface{}, 1)
 	restore := service.VerifAfterNextExecutedHas(func([]byte) {
-		pool.MarkExecuted(hdr, types.Receipts{r}, []*types.Transaction{tx}, hdr.EvictedTxs)
+		done := make(chan struct{})
+		go func() {
+			marked <- safely(func() { pool.MarkExecuted(hdr, types.Receipts{r}, []*types.Transaction{tx}, hdr.EvictedTxs) })
+			close(done)
+		}()
+		select {
+		case <-done:
+		case <-time.After(500 * time.Millisecond):
+		}
 	})
 	var ok bool
 	var err error
@@ -1425,6 +1438,14 @@ func TestProbeAddVsMark(t *testing.T) {
 	restore()
 	if p != nil {
 		t.Fatalf("AddTransaction panicked: %v", p)
+	}
+	select {
+	case mp := <-marked:
+		if mp != nil {
+			t.Fatalf("MarkExecuted panicked: %v", mp)
+		}
+	case <-time.After(20 * time.Second):
+		t.Fatalf("VERIF-INCONCLUSIVE probe: MarkExecuted did not return")
 	}
 	ex := pool.GetExecuted(tx.Hash)
 	if ex == nil || ex.Receipt.BlockHash != hdr.Hash {
